@@ -357,7 +357,7 @@ Proof. apply wf_parts. Qed.
 Lemma ws_ok_parts p w : ws_ok a p w = true ->
   ws_anc a (fuelw a) (p_name p) (w_inh w) <> None /\ forallb (stmt_ok a p w) (w_items w) = true.
 Proof.
-  unfold ws_ok. rewrite !andb_true_iff. intros [[[[[[[Hanc _] _] _] _] _] _] Hst]. split; auto.
+  unfold ws_ok. rewrite !andb_true_iff. intros [[[[[[Hanc _] _] _] _] _] Hst]. split; auto.
   destruct (ws_anc a (fuelw a) (p_name p) (w_inh w)); discriminate.
 Qed.
 
@@ -881,16 +881,19 @@ Theorem satisfies_model_output_proved a m :
   (m_res_pkg m = true \/ names_distinct a = true) ->
   (m_res_inh m = true \/ inherits_qualified a = true) ->
   (m_desc_refs m = true \/ no_desc_ref_targets a = true) ->
+  (m_nested_pkg m = true \/ no_foreign_nested a = true) ->
+  (m_diamond m = true \/ no_diamond_below a = true) ->
+  (m_grant_inh m = true \/ grant_cols_own a = true) ->
   exists d, compile a m = Some d /\ satisfies (Trace a (render a) (Compiled d true true)) = true.
 Proof.
-  intros Hwf Hc Hn Hv Ha Hrp Hri Hd. exists (compile_items a m).
+  intros Hwf Hc Hn Hv Ha Hrp Hri Hd Hnp Hdm Hgi. exists (compile_items a m).
   pose proof (go_vs_ideal_proved a m Hc Hn Hv Ha Hd) as HF.
   destruct (wf_parts a Hwf) as (Hkeys & _ & Hu).
   assert (Hres : resolves_like_spec a m = true).
-  { unfold resolves_like_spec. apply andb_true_iff. split; apply orb_true_iff; tauto. }
+  { unfold resolves_like_spec. rewrite !andb_true_iff. repeat split; apply orb_true_iff; tauto. }
   split.
   - unfold compile, accepts. rewrite Hwf, Hres. unfold no_unique_collision in *. rewrite (Forall2_uniq _ _ HF Hu). reflexivity.
-  - unfold satisfies. cbn [tr_ast tr_out]. unfold compile, accepts, resolves_like_spec. cbn [m_res_pkg m_res_inh Ideal orb].
+  - unfold satisfies. cbn [tr_ast tr_out]. unfold compile, accepts, resolves_like_spec. cbn [m_res_pkg m_res_inh m_nested_pkg m_diamond m_grant_inh Ideal orb].
     rewrite Hwf, Hu. cbn [andb]. rewrite !andb_true_r.
     apply Forall2_dump_match.
     + eapply Forall2_impl_in; [|exact HF]. intros i g Hi Hok. apply item_ok_sim; auto.
@@ -898,7 +901,7 @@ Proof.
     + rewrite <- (Forall2_keys _ _ HF). auto.
 Qed.
 
-Ltac go_flag := unfold Go; cbn [m_uniq_per_type m_nested_inherit m_view_refs m_acl_repeat m_res_pkg m_res_inh m_desc_refs];
+Ltac go_flag := unfold Go; cbn [m_uniq_per_type m_nested_inherit m_view_refs m_acl_repeat m_res_pkg m_res_inh m_desc_refs m_nested_pkg m_diamond m_grant_inh];
   repeat match goal with H : _ = true |- _ => rewrite H; clear H end; reflexivity.
 
 (* the link theorem for the compiler as it is: no hypothesis on the schema beyond well-formedness,
@@ -907,10 +910,11 @@ Theorem go_meets_spec_proved :
   parser_uniques_numbered_per_type = true -> parser_nested_tables_inherit = true -> parser_view_refs_recorded = true ->
   parser_inherited_grants_once = true -> parser_lookup_respects_package = true -> parser_inherits_in_own_package = true ->
   parser_descriptor_refs_analysed = true ->
+  parser_inherited_nested_in_own_package = true -> parser_diamond_below_heir_accepted = true -> parser_grant_inherited_columns = true ->
   forall a, wf a = true ->
   exists d, compile a Go = Some d /\ satisfies (Trace a (render a) (Compiled d true true)) = true.
 Proof.
-  intros H1 H2 H3 H4 H5 H6 H7 a Hwf. apply (satisfies_model_output_proved a Go Hwf); left; go_flag.
+  intros H1 H2 H3 H4 H5 H6 H7 H8 H9 H10 a Hwf. apply (satisfies_model_output_proved a Go Hwf); left; go_flag.
 Qed.
 
 (* the same while some repairs are missing: the schema avoids the shapes the missing ones are about *)
@@ -921,16 +925,22 @@ Theorem go_meets_spec_within_proved :
   (parser_lookup_respects_package = true \/ names_distinct a = true) ->
   (parser_inherits_in_own_package = true \/ inherits_qualified a = true) ->
   (parser_descriptor_refs_analysed = true \/ no_desc_ref_targets a = true) ->
+  (parser_inherited_nested_in_own_package = true \/ no_foreign_nested a = true) ->
+  (parser_diamond_below_heir_accepted = true \/ no_diamond_below a = true) ->
+  (parser_grant_inherited_columns = true \/ grant_cols_own a = true) ->
   exists d, compile a Go = Some d /\ satisfies (Trace a (render a) (Compiled d true true)) = true.
 Proof.
-  intros H1 H2 H3 a Hwf H4 H5 H6 H7. apply (satisfies_model_output_proved a Go Hwf).
-  - left; clear H4 H5 H6 H7; go_flag.
-  - left; clear H4 H5 H6 H7; go_flag.
-  - left; clear H4 H5 H6 H7; go_flag.
-  - destruct H4 as [H4 | H4]; [left; clear H5 H6 H7; go_flag | right; auto].
-  - destruct H5 as [H5 | H5]; [left; clear H4 H6 H7; go_flag | right; auto].
-  - destruct H6 as [H6 | H6]; [left; clear H4 H5 H7; go_flag | right; auto].
-  - destruct H7 as [H7 | H7]; [left; clear H4 H5 H6; go_flag | right; auto].
+  intros H1 H2 H3 a Hwf H4 H5 H6 H7 H8 H9 H10. apply (satisfies_model_output_proved a Go Hwf).
+  - left; clear H4 H5 H6 H7 H8 H9 H10; go_flag.
+  - left; clear H4 H5 H6 H7 H8 H9 H10; go_flag.
+  - left; clear H4 H5 H6 H7 H8 H9 H10; go_flag.
+  - destruct H4 as [H4 | H4]; [left; clear H5 H6 H7 H8 H9 H10; go_flag | right; auto].
+  - destruct H5 as [H5 | H5]; [left; clear H4 H6 H7 H8 H9 H10; go_flag | right; auto].
+  - destruct H6 as [H6 | H6]; [left; clear H4 H5 H7 H8 H9 H10; go_flag | right; auto].
+  - destruct H7 as [H7 | H7]; [left; clear H4 H5 H6 H8 H9 H10; go_flag | right; auto].
+  - destruct H8 as [H8 | H8]; [left; clear H4 H5 H6 H7 H9 H10; go_flag | right; auto].
+  - destruct H9 as [H9 | H9]; [left; clear H4 H5 H6 H7 H8 H10; go_flag | right; auto].
+  - destruct H10 as [H10 | H10]; [left; clear H4 H5 H6 H7 H8 H9; go_flag | right; auto].
 Qed.
 
 Theorem go_item_for_item_proved :
